@@ -87,7 +87,13 @@ _VER = _re.compile("\u2032(\\d*)")
 def summarize(p, abbr=()):
     """(guard strings, outcome string) of a path; `x'N` versions are renumbered by order of appearance."""
     gs = []
-    for a, o in p.guards:
+    last = {}
+    for i, (a, o) in enumerate(p.guards):
+        if isinstance(o, tuple) and o[0] in ("variant", "variants"):
+            last[a] = i
+    for i, (a, o) in enumerate(p.guards):
+        if isinstance(o, tuple) and o[0] in ("variant", "variants") and last.get(a) != i:
+            continue
         s = render(a, abbr)
         if o is True:
             gs.append(s)
